@@ -2,7 +2,7 @@
 From Coq Require Import List NArith ZArith Bool Permutation Sorted.
 Import ListNotations.
 From SV.Num Require Import Dec NumGrammar NumGrammarProofs.
-From SV.Enc Require Import Prims Ty Val IR Compile JsonLite MapSort VM Exec StdEnc CompileWf Frag EncProofs.
+From SV.Enc Require Import Prims Ty Val IR Compile JsonLite MapSort VM Exec StdEnc CompileWf TyLemmas Frag EncProofs.
 
 (* alg/sort.go: the 3-way radix quicksort (insertion sort base case, heapsort fallback) sorts every list of keys
    bytewise, for every depth budget, and only permutes it *)
@@ -35,45 +35,51 @@ Example C03_compile_labels_nonvacuous :
   exists prog, compile [] default_copts (TSlice (TPrim KInt)) false = COk prog /\ length prog = 15%nat.
 Proof. eexists. split; [vm_compute; reflexivity | reflexivity]. Qed.
 
-(* ---- the main statement, on the proved fragment (`_partial`: the fragment is Frag.frag - unnamed bool / integer / float /
-   string kinds, pointers, slices incl. []byte, arrays, arbitrarily nested; every value of such a type with finite floats;
-   both executors; every environment and compile options).
+(* ---- the main statement, on the proved fragment (`_partial`).  The fragment is Frag.frag: unnamed bool / integer / float /
+   string kinds, pointers, slices incl. []byte, arrays, and structs whose resolved fields have no options and direct offsets
+   (no omitempty / string / omitzero, no embedded pointers on the path), non-zero-size physical fields laid out without
+   overlap - all arbitrarily nested, including structs compiled out of line (OP_recurse beyond the inline depth or with
+   >= 50 fields: the nested frame, the program cache request and the return are part of the proof).  Every well-typed
+   value with finite floats; both executors; every environment; every compile options with MaxInlineDepth > 0, provided the
+   struct types inside the type compile at top level (`compilable`, which is what OP_recurse asks of the program cache).
    Marshal under the std-compatible option word returns exactly `encodeFinish (reference bytes)`, where the reference bytes
    are those of Enc/StdEnc.std_marshal (encoding/json as documented) with sonic's spelling of string escapes (Qraw) - or the
    model's 2^40-step fuel runs out (never observed; no step bound is proved).
-   NOT covered by the theorem (tied on every run instead, see checks/C03.py): structs, maps, interfaces, named types /
-   Marshalers, json.Number, NaN/Inf, and that the HTML / UTF-8 post passes of encodeFinish act literal by literal. *)
+   NOT covered by the theorem (tied on every run instead, see checks/C03.py): struct field options and embedding, maps,
+   interfaces, named types / Marshalers, json.Number, NaN/Inf, and that the HTML / UTF-8 post passes of encodeFinish act
+   literal by literal. *)
 Theorem C03_marshal_agree_partial_jit : forall e co t v fuel res prog,
-  frag t -> has_type (fok prims_jit) t v -> compile e co t false = COk prog ->
+  (0 < MaxInlineDepth co)%nat ->
+  frag e t -> compilable e co t -> has_type (fok prims_jit) t v -> compile e co t false = COk prog ->
   std_marshal e Qraw fuel (Some (t, v)) = SOk res -> (need v <= 4096)%nat ->
   agree (encode prims_jit e co std_flags (Some (t, v))) res.
 Proof. exact marshal_agree_jit. Qed.
 Print Assumptions C03_marshal_agree_partial_jit.
 
 Theorem C03_marshal_agree_partial_vm : forall e co t v fuel res prog,
-  frag t -> has_type (fok prims_vm) t v -> compile e co t false = COk prog ->
+  (0 < MaxInlineDepth co)%nat ->
+  frag e t -> compilable e co t -> has_type (fok prims_vm) t v -> compile e co t false = COk prog ->
   std_marshal e Qraw fuel (Some (t, v)) = SOk res -> (need v <= 4096)%nat ->
   agree (encode prims_vm e co std_flags (Some (t, v))) res.
 Proof. exact marshal_agree_vm. Qed.
 Print Assumptions C03_marshal_agree_partial_vm.
 
-(* the machine-level statement behind it: the code compiled for a type of the fragment, placed anywhere in a program and run
-   with the cursor on a value of that type, appends the reference bytes, restores every register and the state stack *)
-Theorem C03_code_ok_frag : forall P e co flg,
+(* the machine-level statement behind it: the code compiled for a type of the fragment, placed anywhere in a program, at any
+   inline depth and pv, run under any option word without NoNullSliceOrMap with the cursor on a value of that type, appends
+   the reference bytes and restores every register and the state stack *)
+Theorem C03_code_ok_frag : forall P e co,
   (forall z, (- 2 ^ 63 <= z < 2 ^ 63)%Z -> p_i64toa P z = itoa z) ->
   (forall z, (0 <= z < 2 ^ 64)%Z -> p_u64toa P z = utoa (Z.to_N z)) ->
   (forall s d, p_quote P s d = quote s d) ->
-  has_opts flg (b_empty_arr P) = false ->
-  forall t, frag t -> forall cf tab cpv sp pc pv c, tab_above tab t ->
-    compileOne e co cf tab cpv sp pc t pv = COk c -> code_ok P e co flg t c pc.
+  b_recurse P <> b_empty_arr P -> (0 < MaxInlineDepth co)%nat ->
+  forall t, frag e t -> compilable e co t -> forall cf tab cpv sp pc pv c, tab_above tab t ->
+    compileOne e co cf tab cpv sp pc t pv = COk c -> code_ok P e co t c pc.
 Proof. exact code_ok_frag. Qed.
 Print Assumptions C03_code_ok_frag.
 
-(* hypotheses satisfiable, and the statement is not about OutOfFuel only: a concrete slice of pointers to arrays *)
+(* hypotheses satisfiable, and the statement is not about OutOfFuel only: a slice of pointers to structs (array + string fields) *)
 Example C03_marshal_agree_nonvacuous :
-  let t := TSlice (TPtr (TArray 2 (TPrim KInt16))) in
-  let v := VSlice (Some [VPtr (Some (VArr [VInt 7; VInt (-3)])); VPtr None]) in
-  frag t /\ has_type (fok prims_jit) t v /\
-  std_marshal [] Qraw 10 (Some (t, v)) = SOk [91; 91; 55; 44; 45; 51; 93; 44; 110; 117; 108; 108; 93]%N /\
-  encode prims_jit [] default_copts std_flags (Some (t, v)) = Done [91; 91; 55; 44; 45; 51; 93; 44; 110; 117; 108; 108; 93]%N.
+  frag [] ex_ty /\ compilable [] default_copts ex_ty /\ has_type (fok prims_jit) ex_ty ex_val /\
+  std_marshal [] Qraw 10 (Some (ex_ty, ex_val)) = SOk ex_out /\
+  encode prims_jit [] default_copts std_flags (Some (ex_ty, ex_val)) = Done ex_out.
 Proof. exact frag_example. Qed.
